@@ -87,6 +87,8 @@ B.extra["violation_counts"] = counts
 B.extra["skipped"] = 0
 B.extra["states_checked"] = {"full": 0, "third": 0, "third+edge": 0}
 B.extra["rings_covered"] = []
+B.extra["modes"] = {"tracked": 0, "untracked": 0}
+B.extra["families_by_mode"] = {}
 B.extra["strategies_hit"] = []
 
 
@@ -276,20 +278,22 @@ BASES = {}
 FLAGS0 = {}
 
 
-def fresh(rings):
-    if not BASES:
-        o, r = loadTestReactor()
-        FLAGS0.update({pd: pd.assigned for pd in parameters.ALL_DEFINITIONS})
-        BASES[9] = (o, r)
-    if rings not in BASES:
-        o, r9 = BASES[9]
+def fresh(rings, track=False):
+    """A private copy of the n-ring third-core test reactor; track=True: loaded with cs trackAssems=True (spent fuel pool present)."""
+    if (9, track) not in BASES:
+        o, r = loadTestReactor(customSettings={"trackAssems": True}) if track else loadTestReactor()
+        if not FLAGS0:
+            FLAGS0.update({pd: pd.assigned for pd in parameters.ALL_DEFINITIONS})
+        BASES[(9, track)] = (o, r)
+    if (rings, track) not in BASES:
+        o, r9 = BASES[(9, track)]
         r = copy.deepcopy(r9)
         reduceTestReactorRings(r, o.cs, max(rings, 2))
         if rings == 1:
             for a in [a for a in r.core if cell_of(a) != CENTRE]:
                 r.core.removeAssembly(a, discharge=False)
-        BASES[rings] = (o, r)
-    o, r = BASES[rings]
+        BASES[(rings, track)] = (o, r)
+    o, r = BASES[(rings, track)]
     r2 = copy.deepcopy(r)
     for pd, v in FLAGS0.items():  # assignment flags are process-global: give every case the post-load history
         pd.assigned = v
@@ -387,12 +391,12 @@ class Case:
         self.desc = desc
         self.fired = []
         # circumstances (features of the input, not diagnoses) appended to an id so that a known finding stays narrow
-        self.circ = {"full.integrated-x3": "", "restore": ""}
+        self.circ = {"restore": ""}
+        self.copies = []  # (assembly, name, block names) of every assembly seen in the core that is not one of the model's own
+        self.nConv, self.flagsCleared, self.centreFirst, self.written0, self.writtenLater = 0, False, False, set(), set()
 
     def V(self, vid, what, detail=None):
-        if vid == "full.integrated-x3":
-            vid += self.circ["full.integrated-x3"]
-        elif vid.startswith("restore.") and vid != "restore.same-assemblies.edge-present":
+        if vid.startswith("restore.") and vid != "restore.same-assemblies.edge-present":
             vid += self.circ["restore"]
         if vid not in self.fired:
             counts[vid] = counts.get(vid, 0) + 1  # number of cases in which the id fired
@@ -517,6 +521,19 @@ class Case:
             for k in new:
                 if k not in old:
                     lbad.append([label, "stale / new key", list(k) if isinstance(k, tuple) else k])
+        for a, aname, bnames in self.copies:  # copies that were added and are removed again must not be resolvable any more
+            if a.parent is core:
+                continue
+            for table, getter, names, label in ((core.assembliesByName, core.getAssemblyByName, [aname], "assembliesByName"), (core.blocksByName, core.getBlockByName, bnames, "blocksByName")):
+                for nm in names:
+                    if nm in table and nm not in S[("abn" if label == "assembliesByName" else "bbn")]:
+                        lbad.append([label, "stale name of a removed copy", nm])
+                    try:
+                        got = getter(nm)
+                    except KeyError:
+                        continue
+                    if got is a or any(got is b for b in a):
+                        lbad.append([label, "getter resolves a removed copy", nm])
         self.check(not lbad, prefix + ".lookups", "location / name lookups do not resolve exactly as before", lbad[:6])
         self.lookups_truthful(core, S, prefix + ".lookups")
         # derived state: symmetry factors, volumes, masses (stale caches would show here)
@@ -574,7 +591,7 @@ class Case:
             for br in rec["blocks"]:
                 d = pdiff(br["p"], br["obj"].p, factorNames=vi if c == CENTRE else (), factor=3.0)
                 if d:
-                    (zbad if c == CENTRE and all(x[0] in vi for x in d) else obad).append(["centre block" if c == CENTRE else "block", br["name"], list(c), d[:3]])
+                    (zbad if c == CENTRE and all(x[0] in vi for x in d) else obad).append(["centre block" if c == CENTRE else "block", br["name"], list(c), d])
                 for cr in br["comps"]:
                     d = pdiff(cr["p"], cr["obj"].p, skip=CACHE)
                     if d or cr["obj"].temperatureInC != cr["T"]:
@@ -647,9 +664,19 @@ class Case:
                 continue
             if name not in M0["vi"] or name not in m["vi"] or not times3(M0["vi"][name], m["vi"][name]):
                 vb.append([name, brief(M0["vi"].get(name, [None])[0]), brief(m["vi"].get(name, [None])[0])])
-        self.check(not vb and not zbad, "full.integrated-x3", "a volume-integrated total is not 3x the third-core total (centre assembly's values x3, counted once)", (vb + zbad)[:5])
+        badNames = {x[0] for x in vb} | {dd[0] for x in zbad for dd in x[3]}
+        self.check(not vb and not zbad, "full.integrated-x3" + self.x3_circumstance(badNames), "a volume-integrated total is not 3x the third-core total (centre assembly's values x3, counted once)", (vb + [z[:3] + [z[3][:3]] for z in zbad])[:5])
         self.check(not cbad, "full.copy-equals-source", "a new assembly's content differs from its source", cbad[:5])
         self.lookups_truthful(core, S0, "full.lookups")
+
+    def x3_circumstance(self, badNames):
+        """Features of the input (not a diagnosis) under which the x3 clause failed; each known finding gets the narrowest one."""
+        if self.nConv > 1 and badNames and badNames <= (self.writtenLater - self.written0):
+            # not the first conversion by this changer object AND every failing name was first ever written after its first conversion
+            return ".reused-changer"
+        if self.flagsCleared:
+            return ".flags-cleared.centre-first-in-order" if self.centreFirst else ".flags-cleared.centre-not-first"
+        return ""
 
     @staticmethod
     def object_ids(a):
@@ -726,8 +753,13 @@ class Case:
         d = self.desc
         random.seed(d["pseed"])  # Assembly.makeUnique draws from the global generator
         rng = random.Random(d["pseed"])
-        o, r = fresh(d["rings"])
+        track = bool(d.get("track"))
+        o, r = fresh(d["rings"], track)
         core = r.core
+        if track and not (core._trackAssems is True and o.cs["trackAssems"] is True and r.excore.get("sfp") is not None):
+            B.extra["skipped"] += 1  # tracking mode could not be established
+            return False
+        B.extra["modes"]["tracked" if track else "untracked"] += 1
         for h in d["holes"]:
             a = core.childrenByLocator.get(core.spatialGrid[h[0], h[1], 0])
             if a is not None and len(core) > 1:
@@ -754,7 +786,10 @@ class Case:
         T = gc.ThirdCoreHexToFullCoreChanger(o.cs)
         E = gc.EdgeAssemblyChanger()
         dom, edges, T_active, E_list, prev, S1, changed, mutated = "third", False, False, False, None, None, False, False
-        nConv, flagsCleared = 0, d.get("flags") == "cleared"
+        self.flagsCleared = d.get("flags") == "cleared"
+        everAssigned = {pd.name for pd in core.getFirstBlock().p.paramDefs.atLocation(ParamLocation.VOLUME_INTEGRATED) if FLAGS0.get(pd, parameters.NEVER) != parameters.NEVER}
+        wrote = lambda c: set(c["vi_scalar"]) | set(c["vi_array"]) | set(c["vi_list"])
+        self.written0 = everAssigned | wrote(cfg)  # volume-integrated names ever written before this changer's first conversion
         srcCells = set(S0["assems"])
         for idx, op in enumerate(d["ops"]):
             where = "%s@%d" % (op, idx)
@@ -762,6 +797,10 @@ class Case:
             try:
                 if idx in d.get("reseed", ()) and dom == "third" and not edges:
                     cfg = seed_state(core, random.Random(d["pseed"] * 1000 + idx), light=True, avoid=cfg["vi_scalar"])
+                    if self.nConv == 0:
+                        self.written0 |= wrote(cfg)
+                    else:
+                        self.writtenLater |= wrote(cfg)
                     S0 = snap(core)
                     M0 = measure(core, nucSample)
                     srcCells = set(S0["assems"])
@@ -769,8 +808,14 @@ class Case:
                     if dom == "third":
                         srcCells = {cell_of(a) for a in core}
                         prev = "S1" if edges else "S0"
-                        nConv += 1
-                        self.circ["full.integrated-x3"] = ".reused-changer" if nConv > 1 else ".flags-cleared" if flagsCleared else ""
+                        self.nConv += 1
+                        # location order of the assemblies convert loops over (the 120-degree-line ones are removed first): (k, j, i)
+                        order = sorted(c for c in srcCells if not (c[1] > 0 and c[1] == -2 * c[0]))
+                        order.sort(key=lambda c: (c[1], c[0]))
+                        self.centreFirst = bool(order) and order[0] == CENTRE
+                        armiFirst = [cell_of(a) for a in sorted(core) if not (cell_of(a)[1] > 0 and cell_of(a)[1] == -2 * cell_of(a)[0])][:1]
+                        if armiFirst != order[:1]:
+                            B.extra["order_disagreements"] = B.extra.get("order_disagreements", 0) + 1
                         self.circ["restore"] = ".centre-only" if srcCells == {CENTRE} else ".no-centre" if CENTRE not in srcCells else ""
                         dom, edges, T_active, changed = "full", False, True, True
                     T.convert(r)
@@ -790,7 +835,7 @@ class Case:
                 elif op == "A":
                     willAdd = dom == "third" and not E_list and any(on_lower_line(c) and rot(c, 1) not in S0["assems"] for c in S0["assems"]) and not edges
                     E.addEdgeAssemblies(core)
-                    flagsCleared = flagsCleared or dom == "third"  # addEdgeAssemblies resets SINCE_LAST_GEOMETRY_TRANSFORMATION
+                    self.flagsCleared = self.flagsCleared or dom == "third"  # addEdgeAssemblies resets SINCE_LAST_GEOMETRY_TRANSFORMATION
                     if willAdd:
                         edges, E_list, changed = True, True, True
                         S1 = snap(core)
@@ -810,6 +855,10 @@ class Case:
                 else:
                     raise ValueError(op)
                 # clauses of the state the statement prescribes now
+                known = {id(x[0]) for x in self.copies}
+                for a in core:
+                    if id(a) not in S0["byid"] and id(a) not in known:
+                        self.copies.append((a, a.getName(), [b.getName() for b in a]))
                 for b in core.iterBlocks():  # what any physics code does in every state: read (and thereby cache) areas and volumes
                     b.getArea()
                     b.getVolume()
@@ -873,11 +922,18 @@ def cases():
     out = []
     T = B.thorough()
 
-    def add(rings, strat, ops, flags="fresh", reseed=()):
+    turn = {}
+
+    def add(rings, strat, ops, flags="fresh", reseed=(), track=None):
         if rings not in CELLS:
             CELLS[rings] = third_cells(rings)
         cells = CELLS[rings]
-        out.append({"rings": rings, "holes": make_holes(cells, strat, rng), "pseed": rng.randrange(1, 10 ** 6), "flags": flags, "ops": ops, "reseed": list(reseed), "strategy": strat})
+        fam = ops if ops in ("CR", "AX", "AY") else "word"
+        if track is None:  # both removal modes in every scenario family: alternate within (family, rings)
+            turn[(fam, rings)] = not turn.get((fam, rings), rings % 2 == 0)
+            track = turn[(fam, rings)] and (T or rings in (2, 3, 4))
+        out.append({"rings": rings, "holes": make_holes(cells, strat, rng), "pseed": rng.randrange(1, 10 ** 6), "flags": flags, "ops": ops, "reseed": list(reseed),
+                    "track": bool(track), "strategy": strat, "family": fam})
 
     alphabet = "CRAX"
     words = [""]
@@ -905,13 +961,18 @@ def cases():
         add(5, "none", "AX")
         add(5, "detect-cell", "AY")
         # 4: operation words, one changer object of each kind per word
-        for w in byLen[1] + byLen[2] + rng.sample(byLen[3], 10) + rng.sample(byLen[4], 10):
+        for w in byLen[1] + byLen[2] + rng.sample(byLen[3], 7) + rng.sample(byLen[4], 7):
             add(3, "none", w, fl(), reseed=[2] if len(w) > 2 and rng.random() < 0.3 else ())
+        for w in ("CR", "AX", "ACRX", "CRAX"):  # the removing words once more, in the removal mode the alternation did not give them
+            prev = [c for c in out if c["rings"] == 3 and c["ops"] == w and not c["holes"]]
+            add(3, "none", w, fl(), track=not prev[-1]["track"] if prev else True)
         for w in ("AC", "AXC", "ACR"):  # ring-2 core: no symmetry-line cells
             add(2, "none", w)
+        add(3, "none", "AC", track=False)  # add-edge then convert on a full 3-ring map: the centre is not first in location order
+        add(3, "none", "AC", track=True)
         add(3, "none", "CRC", reseed=[2])  # new parameter values between two conversions by the same changer
         add(4, "random", "CRCR", reseed=[2])
-        add(9, "none", "CR")
+        add(9, "none", "CR", track=False)
     else:
         for rings in (1, 2, 3, 4, 5, 6, 7, 8, 9):
             strats = HOLE_STRATEGIES if rings >= 3 else ["none", "centre"] if rings == 2 else ["none"]
@@ -926,9 +987,13 @@ def cases():
                     if rings >= 3 and (rings <= 5 or rep == 0):
                         add(rings, strat, "AX", f)
                         add(rings, strat, "AY")
-        for L in (1, 2, 3, 4):  # all 340 words
+        n = 0
+        for L in (1, 2, 3, 4):  # all 340 words, removal mode alternating; the 84 words of length <= 3 in the other mode as well
             for w in byLen[L]:
-                add(3, "none", w, fl(), reseed=[2] if L > 2 and rng.random() < 0.3 else ())
+                n += 1
+                add(3, "none", w, fl(), reseed=[2] if L > 2 and rng.random() < 0.3 else (), track=n % 2 == 0)
+                if L <= 3:
+                    add(3, "none", w, fl(), track=n % 2 == 1)
         for L in (1, 2, 3):
             for w in byLen[L]:
                 add(2, "none", w, "fresh")
@@ -959,11 +1024,13 @@ def main():
                 if time.time() - B.t0 > budget:
                     break
                 strat = d.pop("strategy")
+                fam = d.pop("family") + ("/tracked" if d["track"] else "/untracked")
+                B.extra["families_by_mode"][fam] = B.extra["families_by_mode"].get(fam, 0) + 1
                 c = Case(d)
                 runLog.setVerbosity("error")
                 changed = c.run()
                 done += 1
-                B.case((d["rings"], json.dumps(d["holes"]), d["pseed"], d["flags"], d["ops"]), sample=d, nontrivial=bool(changed))
+                B.case((d["rings"], json.dumps(d["holes"]), d["pseed"], d["flags"], d["ops"], d["track"]), sample=d, nontrivial=bool(changed))
                 if d["rings"] not in B.extra["rings_covered"]:
                     B.extra["rings_covered"].append(d["rings"])
                 if strat not in B.extra["strategies_hit"]:
